@@ -134,6 +134,61 @@ impl Engine for RestoreEngine {
     }
 }
 
+/// C04 = ALLOC engine (deep reachable free-states of the allocator) plus SIM histories (real
+/// start / finish / cancel / failure / prefill hand-over orders on real workers, environment
+/// variables handed to the task).
+#[derive(serde::Serialize, serde::Deserialize, Debug, Clone)]
+pub enum C04Case {
+    Alloc(alloc::AllocCase),
+    Sim(sim::SimCase),
+}
+
+pub struct C04Engine;
+
+impl Engine for C04Engine {
+    type Case = C04Case;
+    fn property(&self) -> &str {
+        "C04"
+    }
+    fn strategy(&self, tier: Tier) -> BoxedStrategy<Self::Case> {
+        use proptest::prelude::*;
+        let a = alloc::AllocEngine { prop: "C04" }.strategy(tier).prop_map(C04Case::Alloc);
+        let s = sim::case_strategy("placement", 80, 90).prop_map(C04Case::Sim);
+        prop_oneof![10 => a, 1 => s].boxed()
+    }
+    fn quick_cases(&self) -> usize {
+        6600
+    }
+    fn thorough_cases(&self) -> usize {
+        160_000
+    }
+    fn run(&self, case: &Self::Case) -> Outcome {
+        match case {
+            C04Case::Alloc(c) => alloc::AllocEngine { prop: "C04" }.run(c),
+            C04Case::Sim(c) => {
+                let run = sim::execute(c);
+                let mut out = sim::outcome_for("C04", &run);
+                let cl = &run.obs.borrow().classes;
+                out.nontrivial = cl.contains("concurrent-executions-on-a-worker")
+                    && (cl.contains("fractional-allocation-on-a-worker")
+                        || cl.contains("prefilled-start"));
+                out
+            }
+        }
+    }
+    fn rule(&self) -> String {
+        format!(
+            "{} | 1 of 11 cases is a SIM history (profile 'placement') in which the allocations of all executions live at the same time on each real worker are checked against the same ledger, each grant against the request, and HQ_RESOURCE_VALUES_* / HQ_CPUS against the held indices; non-trivial there = at least two concurrent executions on one worker and a fractional allocation or a start from the prefilled backlog",
+            alloc::AllocEngine { prop: "C04" }.rule()
+        )
+    }
+    fn assumptions(&self) -> Vec<String> {
+        let mut a = alloc::AllocEngine { prop: "C04" }.assumptions();
+        a.push("SIM part: fake TaskLauncher; the environment is taken from the real insert_resources_into_env through the verif_resources_env hook".into());
+        a
+    }
+}
+
 fn has(c: &std::collections::BTreeSet<String>, k: &str) -> bool {
     c.contains(k)
 }
@@ -294,7 +349,7 @@ fn main() {
             } else if prop == "C18" {
                 run_engine(Arc::new(autoalloc::AutoEngine { prop: "C18" }), tier, seed)
             } else if prop == "C04" {
-                run_engine(Arc::new(alloc::AllocEngine { prop: "C04" }), tier, seed)
+                run_engine(Arc::new(C04Engine), tier, seed)
             } else if prop == "C16" {
                 run_engine(Arc::new(alloc::AllocEngine { prop: "C16" }), tier, seed)
             } else {
@@ -324,7 +379,7 @@ fn main() {
             } else if prop == "C18" {
                 replay_engine(&autoalloc::AutoEngine { prop: "C18" }, path)
             } else if prop == "C04" {
-                replay_engine(&alloc::AllocEngine { prop: "C04" }, path)
+                replay_engine(&C04Engine, path)
             } else if prop == "C16" {
                 replay_engine(&alloc::AllocEngine { prop: "C16" }, path)
             } else {
